@@ -22,6 +22,8 @@ def apply_ops(seq, ops):
     for op in ops:
         if op[0] == "rc":
             v = v.rc()
+        elif op[0] == "copy":
+            v = v.copy()
         else:
             _, a, b, c = op
             v = v[a:b:c]
@@ -86,13 +88,13 @@ def run_seq_case(case):
 
 
 def run_aln_case(case):
-    """rows: {name: gapped string}; features on ungapped sequence coordinates of one row;
-    observed: alignment-level feature slices per row, projected feature slices"""
+    """rows: {name: gapped string}; features in ungapped coordinates of one row, stored in the
+    alignment's db; observed per feature on the (sliced / reverse complemented) alignment:
+    strand, alignment coordinates, the columns of feature.get_slice() per row, and the slice of
+    the feature projected onto every other row"""
     from cogent3 import make_aligned_seqs
 
-    kw = dict(new_type=True) if case["impl"] == "new" else {}
-    aln = make_aligned_seqs(case["rows"], moltype="dna", array_align=False, **kw)
-    db = aln.annotation_db
+    aln = make_aligned_seqs(case["rows"], moltype="dna", array_align=False)
     for k, (seqid, spans, minus) in enumerate(case["feats"]):
         aln.add_feature(seqid=seqid, biotype="gene", name=f"f{k}", spans=[tuple(s) for s in spans],
                         strand="-" if minus else "+", on_alignment=False)
@@ -118,7 +120,7 @@ def run_aln_case(case):
         rec = {"minus": bool(f.reversed), "coords": [[int(x), int(y)] for x, y in f.map.get_coordinates()]}
         try:
             sl = f.get_slice()
-            rec["slice"] = {nm: str(sl.get_gapped_seq(nm) if hasattr(sl, "get_gapped_seq") else sl.seqs[nm]) for nm in names}
+            rec["slice"] = {nm: str(sl.get_gapped_seq(nm)) for nm in names}
         except Exception as e:  # noqa: BLE001
             rec["slice"] = _exc(e, "aln feature get_slice")
         proj = {}
@@ -126,8 +128,6 @@ def run_aln_case(case):
             if nm == seqid:
                 continue
             try:
-                # a feature on the sequence, projected onto another row
-                sf = list(a.get_seq(seqid).get_features(name=f"f{k}", allow_partial=True)) if False else None
                 pf = a.get_projected_feature(seqid=nm, feature=f)
                 proj[nm] = str(pf.get_slice())
             except Exception as e:  # noqa: BLE001
